@@ -116,6 +116,18 @@ func genC03(seed uint64, run int, tier string) *Plan {
 			tp.Ops = append(tp.Ops, Op{K: "yield"})
 		}
 	}
+	if r.IntN(5) == 0 {
+		// one cursor advanced by all tasks
+		tp.Ops = append([]Op{{K: "sleep", Ms: int64(1 + r.IntN(100))}, {K: "csr.share"}}, tp.Ops...)
+		for ti := range p.Tasks {
+			for k := 1 + r.IntN(3); k > 0; k-- {
+				at := r.IntN(len(p.Tasks[ti].Ops) + 1)
+				ops := append([]Op{}, p.Tasks[ti].Ops[:at]...)
+				ops = append(ops, Op{K: "csr.next", N: 1 + r.IntN(3)})
+				p.Tasks[ti].Ops = append(ops, p.Tasks[ti].Ops[at:]...)
+			}
+		}
+	}
 	p.Tasks = append(p.Tasks, tp)
 	if r.IntN(4) == 0 && len(p.Faults) == 0 {
 		p.Faults = append(p.Faults, Fault{Kind: pick(r, "store-before", "store-slow-fail"), At: r.IntN(8), Ms: int64(1 + r.IntN(1500))})
@@ -123,8 +135,17 @@ func genC03(seed uint64, run int, tier string) *Plan {
 	return p
 }
 
+// sharedCursor is one cursor that several tasks advance concurrently: whatever the interleaving, the number of
+// successful Next calls equals the number of documents of the snapshot the cursor was created on.
+type sharedCursor struct {
+	csr      lungo.ICursor
+	inv, ret int
+	nexts    int
+}
+
 func execC03(t *testing.T, plan *Plan) *Outcome {
 	var snaps []*snapshot
+	var shared *sharedCursor
 	commitDumps := map[int]string{}
 	return execConc(t, plan, "C03", func(e *Env, actors []*actor) {
 		// every committed catalog is itself a snapshot: remember its dump
@@ -132,6 +153,25 @@ func execC03(t *testing.T, plan *Plan) *Outcome {
 		for _, a := range actors {
 			a.special = func(a *actor, op *Op) bool {
 				switch op.K {
+				case "csr.share":
+					if shared == nil {
+						inv := len(e.commits)
+						csr, err := e.client.Database("db").Collection("k").Find(context.Background(), bson.D{})
+						if err == nil {
+							shared = &sharedCursor{csr: csr, inv: inv, ret: len(e.commits)}
+							e.probe("shared-cursor")
+						}
+					}
+					return true
+				case "csr.next":
+					if shared != nil {
+						for n := op.N; n > 0; n-- {
+							if shared.csr.Next(context.Background()) {
+								shared.nexts++
+							}
+						}
+					}
+					return true
 				case "snap":
 					if s := takeSnapshot(e, a, op); s != nil {
 						snaps = append(snaps, s)
@@ -148,6 +188,25 @@ func execC03(t *testing.T, plan *Plan) *Outcome {
 	}, func(e *Env, actors []*actor) {
 		done := false
 		e.sim.Go("final-recheck", false, func(*simrt.Task) {
+			if shared != nil {
+				for shared.csr.Next(context.Background()) {
+					shared.nexts++
+				}
+				ok := false
+				var sizes []int
+				for j := shared.inv; j <= shared.ret; j++ {
+					n := 0
+					if c := e.stateAt(j).Namespaces[lungo.Handle{"db", "k"}]; c != nil {
+						n = len(c.Documents.List)
+					}
+					sizes = append(sizes, n)
+					ok = ok || n == shared.nexts
+				}
+				if !ok {
+					e.violate(violation("C03", "snapshot-changed", "shared-cursor", fmt.Sprintf("a cursor advanced by several tasks yielded %d documents, the collection held %v when it was created", shared.nexts, sizes)))
+					return
+				}
+			}
 			recheckSnapshots(e, snaps, commitDumps, true)
 			done = true
 		})
